@@ -121,6 +121,23 @@ def bounded_image_truncation(ses):
             pass
         except Exception as e:  # noqa: BLE001
             bad.append((level, "missing image", None, f"{type(e).__name__} is not an OSError"))
+    # a product with several images: each listed file missing in turn (one image of several too) - never a smaller tree
+    for level in ("1.5", "1.1"):
+        root = f"/c18/multi{level}"
+        fs, images, names = e2e.make_product(root, k=3, level=level, seed=ses.seed + 7)
+        for name in names[:-1]:  # volume directory, leader, each image
+            keep = fs.cat(f"{root}/{name}")
+            fs.rm(f"{root}/{name}")
+            n += 1
+            try:
+                t = open_alos2(f"memory://{root}", backend_options={"use_cache": False})
+                bad.append((level, f"missing {name} of a 3-image product", None,
+                            f"returned a tree with imagery {list(t['imagery'].children)}"))
+            except OSError:
+                pass
+            except Exception as e:  # noqa: BLE001
+                bad.append((level, f"missing {name}", None, f"{type(e).__name__} is not an OSError"))
+            fs.pipe(f"{root}/{name}", keep)
     ses.bounded_check("C18/bounded/truncated-or-missing-image", not bad,
                       bound=f"both levels; cuts at 0, 1, 719..721, every record boundary -1/0/+1/+12/+R/2, last byte; "
                             f"records_per_chunk in {{1, n-1, n, n+1}} ({n} opens)", function="ceos_alos2.xarray.open_alos2", evaluations=n,
